@@ -201,6 +201,10 @@ def c18(ck):
         seqs.append([req("org.varlink.service.GetInfo"), rq(A, ["r"], 1), req("org.varlink.service.GetInterfaceDescription", {"interface": A}), rq(Bn, ["r0"], 2)])
         seqs.append([rq(A, ["r"], 1, oneway=True), rq(A, ["r"], 2), rq(Bn, ["r"], 3, oneway=True), rq(Bn, ["e0"], 4)])
         seqs.append([rq(A, ["r"], 1), req("org.example.a.Nope", {"x": 1}), rq(Bn, ["mni"], 2)])
+        # messages larger than the bridge's read buffer (8192), in both directions: one burst, then nothing more from that side
+        seqs.append([rq(A, ["r"], "x" * 9000)])
+        seqs.append([rq(A, ["r"], "y" * 70000), rq(A, ["r"], 2)])
+        seqs.append([rq(A, ["c1", "r", "r", "c0", "r"], "z" * 20000, more=True)])
         for _ in range(3 if quick else 25):
             L = rng.randint(2, 7)
             s = []
@@ -236,7 +240,7 @@ def c18(ck):
                         continue
                 else:
                     sq = seq
-                for behaviour in (("pipelined", "one-at-a-time") if si < 4 or (not quick and si < n_fixed) else ("pipelined",)):
+                for behaviour in (("pipelined", "one-at-a-time") if si < 7 or (not quick and si < n_fixed) else ("pipelined",)):
                     args = {"resolver": ["--resolver", sv.r, "bridge"], "connect": ["bridge", "--connect", sv.a],
                             "activate": ["--activate", "%s --listen $VARLINK_ADDRESS" % harness_bin("h_actsrv"), "bridge"],
                             "bridge": ["--bridge", "%s --stdio" % harness_bin("h_actsrv"), "bridge"]}[mode]
@@ -372,6 +376,13 @@ def c20(ck):
                 cases.append((sc, more, v))
         rng.shuffle(cases)
         cases = cases[:(60 if quick else 400)]
+        # every standard service error (and a custom one), without parameters and with parameters of an unexpected shape:
+        # legal on the wire, never produced by the Rust runtime itself
+        for en in ("InterfaceNotFound", "MethodNotFound", "MethodNotImplemented", "InvalidParameter"):
+            for op in ("E:", "EP:"):
+                cases.append(([op + "org.varlink.service." + en], False, 0))
+                cases.append((["c1", "r", "c0", op + "org.varlink.service." + en], True, 0))
+        cases.append((["E:com.example.Custom"], False, 0))
         addrs = [("unix-deep", sv.a), ("tcp", sv.tcp), ("resolver", None)]
         n = 0
         for sc, more, v in cases:
